@@ -1,3 +1,318 @@
 package main
 
-func cmdCheck(args []string) int { return 2 }
+import (
+	"encoding/json"
+	"flag"
+	"fmt"
+	"os"
+	"path/filepath"
+	"regexp"
+	"sort"
+	"strconv"
+	"strings"
+	"time"
+
+	"golang.org/x/tools/go/ssa"
+)
+
+type PropConfig struct {
+	Title       string   `json:"title"`
+	Level       string   `json:"level"`     // proof | other
+	Functions   []string `json:"functions"` // ssa function keys under contract whose obligations decide the property
+	Only        string   `json:"only"`      // optional regexp on obligation names
+	Assumptions []string `json:"assumptions"`
+	Undecided   []string `json:"undecided_subclaims"`
+	Explanation string   `json:"explanation"`
+	Static      []string `json:"static_checks"` // names of front-end (type-level) checks
+	Bounded     []string `json:"bounded_checks"`
+}
+
+type KnownFinding struct {
+	Property   string `json:"property"`
+	Status     string `json:"status"` // known | fixed
+	Function   string `json:"function"`
+	Obligation string `json:"obligation"`
+	What       string `json:"what"`
+	Commit     string `json:"commit,omitempty"`
+	Replay     string `json:"replay,omitempty"`
+}
+
+func loadProps(verif string) (map[string]*PropConfig, error) {
+	b, err := os.ReadFile(filepath.Join(verif, "props.json"))
+	if err != nil {
+		return nil, err
+	}
+	m := map[string]*PropConfig{}
+	if err := json.Unmarshal(b, &m); err != nil {
+		return nil, fmt.Errorf("props.json: %v", err)
+	}
+	return m, nil
+}
+
+func loadKnown(verif string) []KnownFinding {
+	b, err := os.ReadFile(filepath.Join(verif, "known_findings.json"))
+	if err != nil {
+		return nil
+	}
+	var out []KnownFinding
+	if err := json.Unmarshal(b, &out); err != nil {
+		fmt.Fprintln(os.Stderr, "known_findings.json:", err)
+	}
+	return out
+}
+
+func cmdCheck(args []string) int {
+	opt := &Options{}
+	var ov, prop, tier string
+	fs := flag.NewFlagSet("check", flag.ExitOnError)
+	commonFlags(fs, opt, &ov)
+	fs.StringVar(&prop, "prop", "", "property id")
+	fs.StringVar(&tier, "tier", "quick", "quick|thorough")
+	fs.Parse(args)
+	if t := os.Getenv("VERIF_TIER"); t == "quick" || t == "thorough" {
+		tier = t
+	}
+	if s := os.Getenv("VERIF_SEED"); s != "" {
+		opt.Seed, _ = strconv.Atoi(s)
+	}
+	opt.Thorough = tier == "thorough"
+	if opt.Thorough && opt.PerQuery == 10*time.Second {
+		opt.PerQuery = 40 * time.Second
+	}
+	t0 := time.Now()
+	props, err := loadProps(opt.Verif)
+	if err != nil {
+		fmt.Fprintln(os.Stderr, err)
+		return 2
+	}
+	pc := props[prop]
+	if pc == nil {
+		fmt.Fprintf(os.Stderr, "property %s is not configured in props.json\n", prop)
+		return 2
+	}
+	eng, err := loadRepo(opt.Repo, opt.Verif, parseOverlays(ov))
+	if err != nil {
+		// the tree does not load/compile: not a verdict about the property
+		fmt.Fprintln(os.Stderr, "ENGINE-ERROR: cannot load repository:", err)
+		return 2
+	}
+	loadT := time.Since(t0)
+	var engineErrs []string
+	engineErrs = append(engineErrs, eng.specs.Errors...)
+	engineErrs = append(engineErrs, eng.checkSpecBindings()...)
+
+	var only *regexp.Regexp
+	if pc.Only != "" {
+		only = regexp.MustCompile(pc.Only)
+	}
+	var fns []*ssa.Function
+	var missing []string
+	for _, k := range pc.Functions {
+		if f := eng.byName[k]; f != nil && len(f.Blocks) > 0 {
+			fns = append(fns, f)
+		} else {
+			missing = append(missing, k)
+		}
+	}
+	results := eng.verifyAll(fns, opt)
+	known := loadKnown(opt.Verif)
+
+	type oblRec struct {
+		Function   string `json:"function"`
+		Obligation string `json:"obligation"`
+		Status     string `json:"status"`
+		Solver     string `json:"solver"`
+		Where      string `json:"where"`
+		Note       string `json:"note,omitempty"`
+	}
+	total, discharged := 0, 0
+	var failed []oblRec
+	var samples []interface{}
+	solverCount := map[string]int{}
+	var solverMs int64
+	trusted := map[string]bool{}
+	unknown := map[string]bool{}
+	abstracted := map[string]int{}
+	var vacuous []string
+	violations := 0
+	knownHit := map[int]bool{}
+	var outLines []string
+	replayDir := filepath.Join(opt.Verif, "replay", "out", prop)
+	os.RemoveAll(replayDir)
+
+	report := func(fn, obl, status, where, note, model string) {
+		full := fn + "#" + obl
+		for i, k := range known {
+			if k.Property == prop && k.Status == "known" && k.Function == fn && k.Obligation == obl {
+				knownHit[i] = true
+				outLines = append(outLines, fmt.Sprintf("KNOWN-FINDING: property=%s %s %s", prop, full, k.What))
+				return
+			}
+		}
+		violations++
+		os.MkdirAll(replayDir, 0755)
+		rp := filepath.Join(replayDir, sanitize(shortName(fn)+"_"+obl)+".txt")
+		confirmed := false
+		var sb strings.Builder
+		fmt.Fprintf(&sb, "property: %s\nfunction: %s\nfailed obligation: %s\nsource: %s\nsolver verdict: %s %s\n", prop, fn, obl, where, status, note)
+		for _, k := range known {
+			if k.Property == prop && k.Status == "fixed" && k.Function == fn && k.Obligation == obl {
+				fmt.Fprintf(&sb, "history: this obligation failed before and was repaired by %s (%s) - it has returned\n", k.Commit, k.What)
+			}
+		}
+		if model != "" {
+			fmt.Fprintf(&sb, "solver model (candidate counterexample; values of parameters and block reachability):\n%s\n", model)
+		} else {
+			sb.WriteString("the solver returned no model for this obligation\n")
+		}
+		os.WriteFile(rp, []byte(sb.String()), 0644)
+		line := fmt.Sprintf("VIOLATION property=%s replay=%s obligation=%s", prop, rp, full)
+		if !confirmed {
+			line += " no-failing-input-found"
+		}
+		outLines = append(outLines, line)
+	}
+
+	for _, r := range results {
+		solverMs += r.SolverMs
+		for _, k := range r.Trusted {
+			trusted[k] = true
+		}
+		for _, k := range r.Unknown {
+			unknown[k] = true
+		}
+		for k, n := range r.Abstracted {
+			abstracted[k] += n
+		}
+		for _, v := range r.Vacuous {
+			vacuous = append(vacuous, r.Key+": "+v)
+		}
+		for _, f := range r.Fatal {
+			engineErrs = append(engineErrs, r.Key+": "+f)
+		}
+		n := 0
+		for _, o := range r.Obls {
+			if only != nil && !only.MatchString(o.Name) {
+				continue
+			}
+			n++
+			total++
+			if o.Status == "unsat" {
+				discharged++
+				solverCount[o.Solver]++
+				if len(samples) < 6 && (o.Kind == "ensures" || o.Kind == "requires" || len(samples) < 2) {
+					samples = append(samples, map[string]string{"function": r.Key, "obligation": o.Name, "kind": o.Kind, "where": o.Where, "result": "discharged by " + o.Solver})
+				}
+				continue
+			}
+			failed = append(failed, oblRec{r.Key, o.Name, o.Status, o.Solver, o.Where, o.Note})
+			report(r.Key, o.Name, o.Status, o.Where, o.Note, o.Model)
+		}
+		if n == 0 && len(r.Fatal) == 0 {
+			engineErrs = append(engineErrs, r.Key+": generated zero obligations (vacuous)")
+		}
+	}
+	for _, m := range missing {
+		// a function under contract disappeared: the obligations that were discharged before can no longer be generated
+		total++
+		report(m, "exists", "missing", "?", "function under contract not found in the current tree", "")
+		failed = append(failed, oblRec{m, "exists", "missing", "", "?", "function under contract not found"})
+	}
+	for _, v := range vacuous {
+		total++
+		report("vacuity", v, "vacuous", "?", "a return became unreachable: contradictory assumptions", "")
+	}
+	for _, e := range engineErrs {
+		outLines = append(outLines, "CONTRACT-ERROR: "+e)
+	}
+	// stale known findings
+	for i, k := range known {
+		if k.Property == prop && k.Status == "known" && !knownHit[i] {
+			outLines = append(outLines, fmt.Sprintf("NOTE: known finding %s#%s no longer fails (stale entry)", k.Function, k.Obligation))
+		}
+	}
+
+	var trustedList, unknownList, assumptions []string
+	for k := range trusted {
+		trustedList = append(trustedList, k)
+	}
+	for k := range unknown {
+		unknownList = append(unknownList, k)
+	}
+	sort.Strings(trustedList)
+	sort.Strings(unknownList)
+	assumptions = append(assumptions, pc.Assumptions...)
+	assumptions = append(assumptions,
+		"govc's own translation (SSA -> VC) and contract compiler are trusted; go/ssa lowering is trusted",
+		"integers: mathematical Int with explicit wrap-around per operation; int/uint are 64 bit; bit operators other than shifts/masks by constants are uninterpreted",
+		"allocation never fails; no stack overflow; goroutine scheduling and the Go memory model are not modelled (sequential semantics per function)",
+		"callers are checked against callee contracts, never bodies; callbacks and callees without contract may change every real heap cell but no ghost state")
+	for _, k := range trustedList {
+		assumptions = append(assumptions, "assumed contract (not verified): "+k)
+	}
+	for _, k := range unknownList {
+		assumptions = append(assumptions, "callee without contract (havoc of the real heap assumed): "+k)
+	}
+	var abs []string
+	for k, n := range abstracted {
+		abs = append(abs, fmt.Sprintf("%s (x%d)", k, n))
+	}
+	sort.Strings(abs)
+	for _, a := range abs {
+		assumptions = append(assumptions, "abstracted in translation: "+a)
+	}
+	level := pc.Level
+	if level == "" {
+		level = "proof"
+	}
+	var fkeys []string
+	for _, f := range fns {
+		fkeys = append(fkeys, f.String())
+	}
+	if len(samples) == 0 {
+		samples = append(samples, map[string]string{"note": "no obligation discharged"})
+	}
+	coverage := map[string]interface{}{
+		"obligations":              total,
+		"discharged":               discharged,
+		"checker_cmd":              fmt.Sprintf("/verif/check %s %s  (govc check -prop %s -tier %s; z3-new 5.1.0 first, z3 4.8.12 and cvc5 1.0.3 on what it leaves open)", prop, tier, prop, tier),
+		"trusted_base":             append([]string{"govc (this repository's VC generator)", "go/ssa + go/types (x/tools v0.29.0)", "z3 5.1.0 / z3 4.8.12 / cvc5 1.0.3"}, trustedList...),
+		"functions_under_contract": fkeys,
+		"discharged_by_solver":     solverCount,
+		"solver_ms":                solverMs,
+		"load_ms":                  loadT.Milliseconds(),
+		"failed":                   failed,
+		"samples":                  samples,
+		"explanation":              pc.Explanation,
+		"undecided_subclaims":      pc.Undecided,
+		"unknown_callees":          unknownList,
+		"known_findings_matched":   len(knownHit),
+		"engine_errors":            engineErrs,
+	}
+	ev := map[string]interface{}{
+		"property_id": prop,
+		"tier":        tier,
+		"seed":        opt.Seed,
+		"level":       level,
+		"coverage":    coverage,
+		"assumptions": assumptions,
+		"wall_s":      time.Since(t0).Seconds(),
+		"violations":  violations,
+	}
+	if err := writeJSON(filepath.Join(opt.Verif, "evidence", prop+".json"), ev); err != nil {
+		fmt.Fprintln(os.Stderr, err)
+	}
+	for _, l := range outLines {
+		fmt.Println(l)
+	}
+	fmt.Printf("%s %s: %d obligations, %d discharged, %d violations, %d known findings, %d functions, %.1fs\n", prop, tier, total, discharged, violations, len(knownHit), len(fns), time.Since(t0).Seconds())
+	if len(engineErrs) > 0 && violations == 0 {
+		// a contract that no longer binds is reported, never as a property violation
+		fmt.Println("CONTRACT-MISMATCH: the contract set does not fit the current tree; see CONTRACT-ERROR lines")
+		return 2
+	}
+	if violations > 0 {
+		return 1
+	}
+	return 0
+}
